@@ -33,6 +33,12 @@ func (d *deferredFileNode) resolve() error {
 	}
 	target, err := d.lsys.Load(ipld.LinkContext{Ctx: d.ctx}, d.root, protoFor(d.root))
 	if err != nil {
+		if err == io.EOF {
+			// a store that ran out of data while looking for the block. Passed on
+			// as is, the readers stacked on top of this one would take it for the
+			// regular end of this child and silently carry on with the next.
+			err = io.ErrUnexpectedEOF
+		}
 		return err
 	}
 
